@@ -13,9 +13,50 @@ func init() { register("C04", checkC04) }
 
 // callChainOf renders how a value is computed from a root through module / library calls:
 // "string<-xml.DeflateAndBase64#0<-xml.Marshal#0<-<root path>".
-func (cx *Ctx) callChainOf(v ssa.Value) string {
+func (cx *Ctx) callChainOf(v ssa.Value) string { return cx.callChainOfSub(v, nil, 0) }
+
+// callChainOfSub: sub maps the parameters of a helper whose body is being described to the arguments it was given.
+func (cx *Ctx) callChainOfSub(v ssa.Value, sub map[ssa.Value]ssa.Value, depth int) string {
 	var parts []string
-	for i := 0; i < 10; i++ {
+	for i := 0; i < 12; i++ {
+		if a, ok := sub[v]; ok {
+			v = a
+			continue
+		}
+		// a helper of the module that computes the value (`deflateResponse(resp)`): described by what it returns,
+		// with its parameter standing for the argument - the pipeline is the same wherever its steps are written
+		if g, idx, args := moduleCallOf(v); g != nil && depth < 3 && len(args) == len(g.Params) {
+			var inner []string
+			for _, ret := range returnsOf(g) {
+				if idx >= len(ret.Results) {
+					continue
+				}
+				rv := ret.Results[idx]
+				if k, isK := rv.(*ssa.Const); isK && (k.Value == nil || k.Value.ExactString() == `""`) {
+					continue // the zero value returned next to an error
+				}
+				m := map[ssa.Value]ssa.Value{}
+				for j, p := range g.Params {
+					m[p] = args[j]
+				}
+				for k2, v2 := range sub {
+					m[k2] = v2
+				}
+				c := cx.callChainOfSub(rv, m, depth+1)
+				dup := false
+				for _, o := range inner {
+					if o == c {
+						dup = true
+					}
+				}
+				if !dup {
+					inner = append(inner, c)
+				}
+			}
+			if len(inner) == 1 {
+				return strings.Join(append(parts, inner[0]), "<-")
+			}
+		}
 		switch x := v.(type) {
 		case *ssa.Convert:
 			parts = append(parts, "convert")
@@ -58,6 +99,31 @@ func (cx *Ctx) callChainOf(v ssa.Value) string {
 		root = cx.Fx.path(v)
 	}
 	return strings.Join(append(parts, root), "<-")
+}
+
+// moduleCallOf: v is result #idx of a static call to a module function with a body (not one of the two encoding
+// steps the pipeline is made of, which are named as they are).
+func moduleCallOf(v ssa.Value) (*ssa.Function, int, []ssa.Value) {
+	var c *ssa.Call
+	idx := 0
+	switch x := v.(type) {
+	case *ssa.Extract:
+		c, _ = x.Tuple.(*ssa.Call)
+		idx = x.Index
+	case *ssa.Call:
+		c = x
+	}
+	if c == nil || c.Call.IsInvoke() {
+		return nil, 0, nil
+	}
+	g := calleeOf(c)
+	if g == nil || g.Blocks == nil || g.Pkg == nil || !isModulePath(g.Pkg.Pkg.Path()) {
+		return nil, 0, nil
+	}
+	if n := calleeName(c); strings.HasSuffix(n, "xml.Marshal") || strings.HasSuffix(n, "xml.DeflateAndBase64") {
+		return nil, 0, nil
+	}
+	return g, idx, c.Call.Args
 }
 
 func checkC04(cx *Ctx, r *Report) {
